@@ -19,7 +19,8 @@ MOD = "debian.deb822"
 
 NAMES = ["Package", "X-Foo", "a1", "X-Bug#", "Depends", "Description", "x.y_z", "Build-Depends-Indep"]
 FIRST = ["v", "1.0 (x)", ": v", "#v", "v: w", "", "a  b", "é ü", "-", "v #c"]
-CONT = [" c", "\tc", " .", " a: b", " #x", "  two  words ", " é", " :", "\t# t", " -----BEGIN x-----"]
+CONT = [" c", "\tc", " .", " a: b", " #x", "  two  words ", " é", " :", "\t# t", " -----BEGIN x-----", " -----BEGIN PGP PUBLIC KEY BLOCK-----",
+        " -----END PGP PUBLIC KEY BLOCK-----", "\t-----BEGIN PGP SIGNATURE-----", " -----BEGIN PGP SIGNED MESSAGE-----"]
 
 
 def gen_para(rng, used=None):
@@ -138,6 +139,8 @@ def regex_lemmas(ctx, real):
         pb = {n: envb.add(getattr(D, n), name=n) for n in ("_gpgre", "_blank_line_whitespace", "_blank_line_no_whitespace",
                                                            "_initial_blank_line")}
         fld = envb.add(RX_KEY.encode() + rb":[^\n]*", 0, "encoded field line")
+        cnt = envb.add(rb"[ \t][^\n\r\x0b\x0c]*", 0, "encoded continuation line (VT / FF are outside the stated domain)")
+        wsb = envb.add(rb"[ \t]+", 0, "ws-only")
         envb.finalize()
         n = rx.crosscheck(envb, list(pb.values()), "match")
         ctx.notes.append("rx translation of the bytes patterns cross-checked against re on %d subjects" % n)
@@ -148,6 +151,15 @@ def regex_lemmas(ctx, real):
             smt, var = envb.claim_disjoint(F, envb.lang(pb[pn], "match"))
             ctx.function_under_contract(MOD + ":Deb822." + pn, repr(getattr(D, pn).pattern))
             ctx.vc("R-02d an encoded field line %s" % what, MOD + ":Deb822." + pn, smt, theory="str", model_vars=[var], kind="rx",
+                   replay=lambda m, envb=envb, pn=pn: {"line": repr(envb.realize(m.get("w", ""))), "pattern": pn,
+                                                       "confirmed": getattr(D, pn).match(envb.realize(m.get("w", ""))) is not None})
+        C = envb.lang(cnt, "fullmatch")
+        NBC = z3.Intersect(C, z3.Complement(envb.lang(wsb, "fullmatch")))
+        for pn, dom, what in (("_gpgre", C, "an encoded continuation line is never taken for a PGP armor line"),
+                              ("_blank_line_no_whitespace", C, "an encoded continuation line never ends the paragraph when whitespace does not separate"),
+                              ("_blank_line_whitespace", NBC, "a non-blank encoded continuation line never ends the paragraph")):
+            smt, var = envb.claim_disjoint(dom, envb.lang(pb[pn], "match"))
+            ctx.vc("R-02d %s" % what, MOD + ":Deb822." + pn, smt, theory="str", model_vars=[var], kind="rx",
                    replay=lambda m, envb=envb, pn=pn: {"line": repr(envb.realize(m.get("w", ""))), "pattern": pn,
                                                        "confirmed": getattr(D, pn).match(envb.realize(m.get("w", ""))) is not None})
     except Unsupported as e:
